@@ -254,9 +254,30 @@ func checkCloneRaw(orig orb.Geometry, cloner func(orb.Geometry) orb.Geometry, wh
 		return fmt.Errorf("%s shares a member slice with the original: replacing the members of the clone changed the original: %s", what, d)
 	}
 
-	// writes through the original
+	// results are independent values: after the scribbling above the same call gives the same value again, and
+	// two results alive at the same time share nothing (coordinates, member slices, spare capacity) with each
+	// other or with the original
 	cl = cloner(orig)
-	sc = snapshot(cl)
+	if d := sc.diff(cl); d != "" {
+		return fmt.Errorf("%s repeated after its first result was overwritten gives another value: %s", what, d)
+	}
+	sib := cloner(orig)
+	gen.Walk(sib, set)
+	scribbleCapacity(sib, s)
+	replaceMembers(sib, s)
+	if d := sc.diff(cl); d != "" {
+		return fmt.Errorf("two results of %s share memory: overwriting one changed the other: %s", what, d)
+	}
+	if d := so.diff(orig); d != "" {
+		return fmt.Errorf("%s shares memory with the original (spare capacity included): overwriting and appending to the clone changed the original: %s", what, d)
+	}
+	if third := cloner(orig); third != nil {
+		if d := sc.diff(third); d != "" {
+			return fmt.Errorf("third %s differs from the earlier results: %s", what, d)
+		}
+	}
+
+	// writes through the original
 	if sc.sig != so.sig && !aliasOnly {
 		return fmt.Errorf("second %s has structure %s, want %s", what, sc.sig, so.sig)
 	}
@@ -271,10 +292,55 @@ func checkCloneRaw(orig orb.Geometry, cloner func(orb.Geometry) orb.Geometry, wh
 	return nil
 }
 
+// scribbleCapacity writes s into the spare capacity (what an append would
+// use) of every point list of g and of its top-level member slice.
+func scribbleCapacity(g orb.Geometry, s float64) {
+	var lists [][]orb.Point
+	pointLists(g, &lists)
+	for _, l := range lists {
+		full := l[:cap(l)]
+		for i := len(l); i < len(full); i++ {
+			full[i] = orb.Point{s, s}
+		}
+	}
+	p := orb.Point{s, s}
+	switch v := g.(type) {
+	case orb.MultiLineString:
+		for full, i := v[:cap(v)], len(v); i < len(full); i++ {
+			full[i] = orb.LineString{p}
+		}
+	case orb.Polygon:
+		for full, i := v[:cap(v)], len(v); i < len(full); i++ {
+			full[i] = orb.Ring{p}
+		}
+	case orb.MultiPolygon:
+		for full, i := v[:cap(v)], len(v); i < len(full); i++ {
+			full[i] = orb.Polygon{orb.Ring{p}}
+		}
+		for _, pg := range v {
+			for full, i := pg[:cap(pg)], len(pg); i < len(full); i++ {
+				full[i] = orb.Ring{p}
+			}
+		}
+	case orb.Collection:
+		for full, i := v[:cap(v)], len(v); i < len(full); i++ {
+			full[i] = p
+		}
+		for _, m := range v {
+			if _, isColl := m.(orb.Collection); isColl {
+				scribbleCapacity(m, s)
+			}
+		}
+	}
+}
+
 // ---------------------------------------------------------------- Bound of a geometry
 
-func checkGeomBound(g orb.Geometry) error {
-	in := gen.DeepCopy(g)
+func checkGeomBound(g orb.Geometry) error { return checkGeomBoundRaw(gen.DeepCopy(g)) }
+
+// checkGeomBoundRaw judges Bound() on the value as it is now, at the address where it is.
+func checkGeomBoundRaw(in orb.Geometry) error {
+	g := in
 	s := snapshot(in)
 	got := in.Bound()
 	if d := s.diff(in); d != "" {
@@ -372,6 +438,40 @@ func checkRound(g orb.Geometry, factor int) error {
 	return nil
 }
 
+// checkInPlaceChange: Bound, Equal and Clone depend on the CURRENT values of
+// their arguments only. Every function is called once, then every slice-backed
+// coordinate is changed in place (x -> -x-1: same addresses, same lengths, other
+// values) and the calls are repeated and judged against the model of the new
+// values: an answer remembered under the address of the data is stale here.
+func checkInPlaceChange(g orb.Geometry, cloneKnown bool) error {
+	in, ref := gen.DeepCopy(g), gen.DeepCopy(g)
+	_ = in.Bound()
+	_ = orb.Equal(in, ref)
+	_ = orb.Equal(ref, in)
+	_ = orb.Clone(in)
+	gen.Walk(in, func(p *float64) { *p = -*p - 1 })
+	if err := checkGeomBoundRaw(in); err != nil {
+		return fmt.Errorf("after changing the coordinates in place: %v", err)
+	}
+	want := modelEqual(in, ref)
+	if got := orb.Equal(in, ref); got != want {
+		return fmt.Errorf("after changing the coordinates of g in place: orb.Equal(g, old copy) = %v, structural comparison says %v", got, want)
+	}
+	if got := orb.Equal(ref, in); got != want {
+		return fmt.Errorf("after changing the coordinates of g in place: orb.Equal(old copy, g) = %v, structural comparison says %v", got, want)
+	}
+	if !orb.Equal(in, in) {
+		return fmt.Errorf("after changing the coordinates of g in place: orb.Equal(g, g) = false")
+	}
+	if cl := orb.Clone(in); cl != nil && !cloneKnown {
+		if !modelEqual(cl, in) {
+			_, why := gen.SameBits(cl, in)
+			return fmt.Errorf("after changing the coordinates of g in place: orb.Clone(g) is not the current value: %s", why)
+		}
+	}
+	return nil
+}
+
 // ---------------------------------------------------------------- checkGeom
 
 func checkGeom(c GeomCase) error {
@@ -395,6 +495,9 @@ func checkGeom(c GeomCase) error {
 		return fmt.Errorf("orb.Equal(g, independent copy of g) = false")
 	}
 	if err := checkGeomBound(g); err != nil {
+		return err
+	}
+	if err := checkInPlaceChange(g, known); err != nil {
 		return err
 	}
 	if inRoundDomain(g) {
@@ -633,6 +736,33 @@ func checkBounds(c BoundCase) error {
 		}
 	}
 
+	// ToRing / ToPolygon return fresh values: overwriting one result changes neither an earlier one nor the next
+	{
+		r1 := a.ToRing()
+		s1 := append([]orb.Point{}, r1...)
+		r2 := a.ToRing()
+		for full, i := r2[:cap(r2)], 0; i < len(full); i++ {
+			full[i] = orb.Point{424242.4242, 424242.4242}
+		}
+		if !bitsEq(r1, s1) {
+			return fmt.Errorf("two results of %v.ToRing() share memory: overwriting one changed the other to %v", a, r1)
+		}
+		if r3 := a.ToRing(); !bitsEq(r3, s1) {
+			return fmt.Errorf("%v.ToRing() repeated after a result was overwritten gives %v, before %v", a, r3, s1)
+		}
+		p1 := a.ToPolygon()
+		sp := snapshot(p1)
+		p2 := a.ToPolygon()
+		gen.Walk(p2, func(f *float64) { *f = 424242.4242 })
+		replaceMembers(p2, 424242.4242)
+		if d := sp.diff(p1); d != "" {
+			return fmt.Errorf("two results of %v.ToPolygon() share memory: %s", a, d)
+		}
+		if d := sp.diff(a.ToPolygon()); d != "" {
+			return fmt.Errorf("%v.ToPolygon() repeated after a result was overwritten: %s", a, d)
+		}
+	}
+
 	// Intersects
 	ia, ib := a.Intersects(b), b.Intersects(a)
 	if ia != ib {
@@ -744,6 +874,27 @@ func checkLine(c LineCase) error {
 		}
 		return nil
 	}
+	// Orientation depends on the current values only: mirror the same memory in place (x <-> y) and ask again
+	{
+		m := orb.Ring(cp())
+		_ = m.Orientation()
+		for i := range m {
+			m[i][0], m[i][1] = m[i][1], m[i][0]
+		}
+		om := m.Orientation()
+		ms, mr, md := shoelace(m)
+		switch {
+		case md < 3:
+			if om != 0 {
+				return fmt.Errorf("after mirroring the ring in place: %d distinct vertices %v, Orientation = %d, want 0", md, []orb.Point(m), om)
+			}
+		case halfLattice(m) || (mr && maxAbs(m) <= orientSafeMax):
+			if int(om) != ms {
+				return fmt.Errorf("after mirroring the ring in place to %v: Orientation = %d, exact shoelace sign is %d (before mirroring: %d)", []orb.Point(m), om, ms, o1)
+			}
+		}
+	}
+
 	// Orientation() subtracts the ring's own first vertex before multiplying, so for an unclosed ring the
 	// reversed evaluation has other products (and another S) than the forward one: judge each on its own.
 	_, robustRev, _ := shoelace(want)
@@ -1328,12 +1479,17 @@ func classifyGeom(n *node, cls string) {
 
 var factors = []int{0, 0, 1, 3, 10, 1000, 1000000, 10000000}
 
+// drawGeomCase draws one GeomCase (no bookkeeping: also used for concurrent groups).
+func drawGeomCase(rt *rapid.T) (GeomCase, *node, string) {
+	n, cls := drawGeom(rt)
+	return GeomCase{G: gen.G{V: n.build()}, Factor: rapid.SampledFrom(factors).Draw(rt, "factor")}, n, cls
+}
+
 func TestPropGeom(t *testing.T) {
 	assumptions()
 	stats.Check(t, 60000, 3000000, func(rt *rapid.T) {
-		n, cls := drawGeom(rt)
-		g := n.build()
-		c := GeomCase{G: gen.G{V: g}, Factor: rapid.SampledFrom(factors).Draw(rt, "factor")}
+		c, n, cls := drawGeomCase(rt)
+		g := c.G.V
 		classifyGeom(n, cls)
 		if inRoundDomain(g) {
 			stats.Class("round:in domain")
@@ -1357,41 +1513,47 @@ func TestPropGeom(t *testing.T) {
 	})
 }
 
+// drawPairCase draws a triple; single lists the operation of every derivation that used exactly one edit.
+func drawPairCase(rt *rapid.T) (c PairCase, a *node, cls string, single []string) {
+	a, cls = drawGeom(rt)
+	var edits []string
+	edit := func(from *node, label string) *node {
+		n := from.copy()
+		k := rapid.SampledFrom([]int{0, 1, 1, 1, 1, 2, 3}).Draw(rt, "nedits")
+		var ops []string
+		for i := 0; i < k; i++ {
+			var d string
+			n, d = applyEdit(rt, n)
+			ops = append(ops, d)
+		}
+		edits = append(edits, label+": "+strings.Join(ops, ", "))
+		if k == 1 {
+			single = append(single, strings.SplitN(ops[0], "@", 2)[0])
+		}
+		return n
+	}
+	b := edit(a, "b from a")
+	var cn *node
+	if rapid.Bool().Draw(rt, "cFromB") {
+		cn = edit(b, "c from b")
+	} else {
+		cn = edit(a, "c from a")
+	}
+	return PairCase{A: gen.G{V: a.build()}, B: gen.G{V: b.build()}, C: gen.G{V: cn.build()}, Edits: edits}, a, cls, single
+}
+
 func TestPropPairs(t *testing.T) {
 	assumptions()
 	stats.Check(t, 40000, 2000000, func(rt *rapid.T) {
-		a, cls := drawGeom(rt)
-		var edits []string
-		oneEdit := false
-		edit := func(from *node, label string) *node {
-			n := from.copy()
-			k := rapid.SampledFrom([]int{0, 1, 1, 1, 1, 2, 3}).Draw(rt, "nedits")
-			var ops []string
-			for i := 0; i < k; i++ {
-				var d string
-				n, d = applyEdit(rt, n)
-				ops = append(ops, d)
-			}
-			edits = append(edits, label+": "+strings.Join(ops, ", "))
-			if k == 1 {
-				oneEdit = true
-				stats.Class("edit:" + strings.SplitN(ops[0], "@", 2)[0])
-			}
-			return n
+		c, a, cls, single := drawPairCase(rt)
+		for _, op := range single {
+			stats.Class("edit:" + op)
 		}
-		b := edit(a, "b from a")
-		var cn *node
-		if rapid.Bool().Draw(rt, "cFromB") {
-			cn = edit(b, "c from b")
-		} else {
-			cn = edit(a, "c from a")
-		}
-		c := PairCase{A: gen.G{V: a.build()}, B: gen.G{V: b.build()}, C: gen.G{V: cn.build()}, Edits: edits}
 		stats.Class("coord:" + cls)
 		stats.Class("kind:" + a.Kind)
 		ab, bc, ac := modelEqual(c.A.V, c.B.V), modelEqual(c.B.V, c.C.V), modelEqual(c.A.V, c.C.V)
 		stats.Class(fmt.Sprintf("equal pairs among a,b,c: %d", b2i(ab)+b2i(bc)+b2i(ac)))
-		if oneEdit {
+		if len(single) > 0 {
 			stats.NonTrivial(gen.JSON(c))
 			if stats.WantSample("pair one edit apart") {
 				stats.Sample("pair one edit apart", c)
@@ -1408,16 +1570,29 @@ func b2i(b bool) int {
 	return 0
 }
 
+func drawBoundCase(rt *rapid.T) (c BoundCase, cls int, kinds [3]string) {
+	cls = rapid.SampledFrom([]int{0, 0, 0, 1, 2, 3}).Draw(rt, "cls")
+	a, ka := drawBound(rt, cls, nil)
+	b, kb := drawBound(rt, cls, []orb.Bound{a})
+	cc, kc := drawBound(rt, cls, []orb.Bound{a, b})
+	bs := []orb.Bound{a, b, cc}
+	c = BoundCase{A: gen.FromBound(a), B: gen.FromBound(b), C: gen.FromBound(cc),
+		P: gen.FromPt(drawProbe(rt, cls, bs)), Q: gen.FromPt(drawProbe(rt, cls, bs))}
+	return c, cls, [3]string{ka, kb, kc}
+}
+
+func boundTripleNonTrivial(c BoundCase) bool {
+	a, b, cc := c.A.Bound(), c.B.Bound(), c.C.Bound()
+	ne := b2i(emptyB(a)) + b2i(emptyB(b)) + b2i(emptyB(cc))
+	return ne <= 1 && !(sameBox(a, b) && sameBox(b, cc))
+}
+
 func TestPropBoundLaws(t *testing.T) {
 	assumptions()
 	stats.Check(t, 120000, 6000000, func(rt *rapid.T) {
-		cls := rapid.SampledFrom([]int{0, 0, 0, 1, 2, 3}).Draw(rt, "cls")
-		a, ka := drawBound(rt, cls, nil)
-		b, kb := drawBound(rt, cls, []orb.Bound{a})
-		cc, kc := drawBound(rt, cls, []orb.Bound{a, b})
-		bs := []orb.Bound{a, b, cc}
-		c := BoundCase{A: gen.FromBound(a), B: gen.FromBound(b), C: gen.FromBound(cc),
-			P: gen.FromPt(drawProbe(rt, cls, bs)), Q: gen.FromPt(drawProbe(rt, cls, bs))}
+		c, cls, kinds := drawBoundCase(rt)
+		a, b, cc := c.A.Bound(), c.B.Bound(), c.C.Bound()
+		ka, kb, kc := kinds[0], kinds[1], kinds[2]
 		stats.Class("coord:" + []string{"lattice -2..2", "half lattice -3..3", "float -100..100", "finite mix"}[cls])
 		stats.Class("a:" + ka)
 		stats.Class("b:" + kb)
@@ -1593,6 +1768,10 @@ func TestReplay(t *testing.T) {
 		t.Skip("no replay file")
 	}
 	var f func() error
+	if name == "TestPropConcurrent" {
+		replayConcurrent(t, raw)
+		return
+	}
 	switch {
 	case strings.Contains(name, "Alias"):
 		var c AliasCase
